@@ -7,6 +7,7 @@
      (setmatrix (S ...) (D ...)) / (elemmatrix ..) / (cvmatrix ..) -> (m "...")   set_admits / elem_admits /
                                                        computed_admits, rows = source specs, columns = targets
      (simatrix (S ...) (D ...)) -> (m "...")            store_into_admits (ComputedValue.store_into), rows = produced specs
+     (mcmatrix (ARG ...) (PARAM ...)) -> (m "...")      method_arg_admits;  (fromsdk T) -> true | false   sdk_supported
      (pairs (A B) (A B) ...)   -> (m "xyxy...")         per pair: x = assignable A B, y = py_eq A B
      (subclass C D)            -> true | false          issubclass table
      (descr T)                 -> (descr "type_str" "py_str" <is_dynamic> <static_len | none> <layout> <encodable> CLASS)
@@ -165,6 +166,12 @@ Definition dispatch (e : sexp) : sexp :=
       else if String.eqb cmd "elemmatrix" then do_matrix elem_admits body
       else if String.eqb cmd "cvmatrix" then do_matrix computed_admits body
       else if String.eqb cmd "simatrix" then do_matrix store_into_admits body
+      else if String.eqb cmd "mcmatrix" then do_matrix method_arg_admits body
+      else if String.eqb cmd "fromsdk" then
+        match body with
+        | [t] => match w_ty t with Some t' => p_bool (sdk_supported t') | None => err "bad type" end
+        | _ => err "fromsdk: expected one type"
+        end
       else if String.eqb cmd "subclass" then do_subclass body
       else if String.eqb cmd "descr" then do_descr body
       else if String.eqb cmd "encode" then do_tv (fun t v => p_obytes (arc4_encode t v)) body
